@@ -808,6 +808,29 @@ func (w *pWorld) emitMethod(t *pType, fd *ast.FuncDecl, sb *strings.Builder) {
 
 // body: `return e` or `switch { case c: return e ... default: return e }`
 func (s *pScope) body(b *ast.BlockStmt, what string) string {
+	// `if c1 { return e1 }; if c2 { return e2 }; return e3` is the tagless switch with a default
+	if b != nil && len(b.List) >= 2 {
+		if last, ok := b.List[len(b.List)-1].(*ast.ReturnStmt); ok {
+			sw := &ast.SwitchStmt{Switch: b.Pos(), Body: &ast.BlockStmt{Lbrace: b.Pos()}}
+			okAll := true
+			for _, st := range b.List[:len(b.List)-1] {
+				is, ok := st.(*ast.IfStmt)
+				if !ok || is.Init != nil || is.Else != nil || len(is.Body.List) != 1 {
+					okAll = false
+					break
+				}
+				if _, ok := is.Body.List[0].(*ast.ReturnStmt); !ok {
+					okAll = false
+					break
+				}
+				sw.Body.List = append(sw.Body.List, &ast.CaseClause{Case: is.Pos(), List: []ast.Expr{is.Cond}, Body: is.Body.List})
+			}
+			if okAll {
+				sw.Body.List = append(sw.Body.List, &ast.CaseClause{Case: last.Pos(), Body: []ast.Stmt{last}})
+				b = &ast.BlockStmt{Lbrace: b.Pos(), List: []ast.Stmt{sw}}
+			}
+		}
+	}
 	if b == nil || len(b.List) != 1 {
 		fail(pos(b), "%s: body must be one return or one tagless switch", what)
 	}
